@@ -10,6 +10,8 @@ from . import matrix_common as mc
 FORMULAS = ["center(a)", "scale(a) + A", "a:A + b", "poly(a, 2) + B", "b + C(A, contr.sum):center(a)", "a + z", "center(a):A + z"]
 Z_NULLS_D2 = [1, 3]  # data set 2 carries NaN in the concrete column z at these rows; data set 1 is complete
 OPS = ["M1", "M2", "S1", "S2", "U1", "U2", "F1", "F2"]
+OPS3 = ["M3", "U3", "F3"]  # data set 3: the kinds of a and A are swapped (a categorical, A numeric)
+KIND_SWAP_FORMULAS = ["a + A", "a:A + b", "A + a:b"]
 
 
 def all_formulas(seed: int, thorough: bool):
@@ -92,6 +94,8 @@ def run_history(formula, history, data, same, make_ctx):
         where = f"call {step} ({op}) of history {history}"
         # rows kept depend on this call's data only (not on what earlier calls dropped)
         want_rows = len(df) - (len(Z_NULLS_D2) if (int(op[1]) == 2 and "z" in formula) else 0)
+        if int(op[1]) == 3:
+            want_rows = len(df)
         if cg.shape[0] != want_rows:
             problems.append(("history-changes-rows", f"{where}: {cg.shape[0]} rows returned, the data has {want_rows} complete rows"))
         if lg != lr or cg.shape != cr.shape:
